@@ -8,6 +8,11 @@ ACCESS_LOG = []
 
 class Obj:
     """attribute object ("obj" cells)"""
+    @property
+    def lazy(self):
+        # an optional / lazily loaded attribute: defined on the class, but cannot be had
+        raise AttributeError('lazy is not loaded')
+
     def __repr__(self):
         return 'Obj(%s)' % ', '.join('%s=%r' % kv for kv in sorted(vars(self).items(), key=lambda kv: str(kv[0])))
 
